@@ -467,56 +467,73 @@ pub fn judge_fault_free(plan: &ClientPlan, run: &ClientRun) -> Judged {
                             why = "the first frame after the completed reversal must be the pending query 06 23 with receipt FFFF".into();
                         }
                     }
-                    // 2. iff a receipt was reported: its reversal
+                    // 2. what follows, as a temporal pattern rather than a fixed frame list: every
+                    // pre-authorisation a query reports is reversed (06 25, that receipt) before end-of-day
+                    // is requested; end-of-day (06 50, configured password) is requested; further queries
+                    // in between and whatever comes after end-of-day are not pinned
                     if ok {
-                        let reported = rest_reqs[0].dangling_reported;
-                        if let Some(r2) = reported {
-                            j.stats.hit("probe.cleanup_with_dangling_receipt");
-                            match rest.get(k) {
-                                Some(q) if q.cf == (0x06, 0x25) && q.get_bcd(0x87) == Some(r2 as u64) && q.get_bcd(0x49) == Some(cur) => k += 1,
-                                _ => {
-                                    ok = false;
-                                    why = format!("the terminal reported the dangling pre-authorisation {r2}; the next frame must be its reversal 06 25 (currency {cur})");
-                                }
+                        let mut reported: Vec<u16> = vec![];
+                        let mut reversed: Vec<u16> = vec![];
+                        let mut refused = false;
+                        let mut eod_seen = false;
+                        for (q, rq) in rest.iter().zip(rest_reqs.iter()) {
+                            if eod_seen {
+                                break;
                             }
-                            if ok && cleanup.cancel.end != EndSpec::Completion {
-                                // the terminal refused that reversal: the reported pre-authorisation
-                                // is still open, so end-of-day must not be requested over it
-                                j.stats.hit("probe.dangling_reversal_refused");
-                                // C20: that abort, too, surfaces as an error identifying its code
-                                if let EndSpec::Abort(c) = cleanup.cancel.end {
-                                    if o.result.is_ok() {
-                                        j.fail("C20", "abort_as_success", name, format!("the terminal aborted the reversal of the dangling pre-authorisation {r2} with 0x{c:02x} but {name} returned Ok"));
-                                    } else if let Err(e) = identifies_code(&o.result, c, false) {
-                                        j.fail("C20", "abort_code", name, format!("the terminal aborted the reversal of the dangling pre-authorisation {r2} with 0x{c:02x}: {e}"));
+                            if q.cf == (0x06, 0x23) && q.get(0x87) == Some(&[0xff, 0xff][..]) {
+                                if let Some(r2) = rq.dangling_reported {
+                                    if !reported.contains(&r2) {
+                                        reported.push(r2);
+                                        j.stats.hit("probe.cleanup_with_dangling_receipt");
                                     }
                                 }
-                                if rest[k..].iter().any(|q| q.cf == (0x06, 0x50)) {
-                                    j.fail(
-                                        "C19",
-                                        "eod_over_dangling",
-                                        name,
-                                        format!("the terminal refused the reversal of the dangling pre-authorisation {r2}, yet {name} went on to request end-of-day over it"),
-                                    );
+                            } else if q.cf == (0x06, 0x25) {
+                                if let Some(r) = q.get_bcd(0x87) {
+                                    if reported.contains(&(r as u16)) && (q.get(0x49).is_none() || q.get_bcd(0x49) == Some(cur)) {
+                                        reversed.push(r as u16);
+                                        if rq.completed != Some(true) {
+                                            refused = true;
+                                        }
+                                    }
                                 }
-                                k = usize::MAX;
+                            } else if q.cf == (0x06, 0x50) {
+                                eod_seen = true;
+                                if let Some(r2) = reported.iter().find(|r| !reversed.contains(r)) {
+                                    ok = false;
+                                    why = format!("the terminal reported the dangling pre-authorisation {r2}; its reversal 06 25 must come before end-of-day");
+                                } else if rc::bcd_val(&q.pos) != Some(plan.cfg.password as u64) {
+                                    ok = false;
+                                    why = format!("end-of-day 06 50 must carry the configured password {}", plan.cfg.password);
+                                }
                             }
                         }
-                    }
-                    // 3. end-of-day
-                    if ok && k != usize::MAX {
-                        match rest.get(k) {
-                            Some(q) if q.cf == (0x06, 0x50) && rc::bcd_val(&q.pos) == Some(plan.cfg.password as u64) => k += 1,
-                            _ => {
+                        if refused {
+                            // the terminal refused the reversal of a pre-authorisation it reported: that one
+                            // is still open, so end-of-day must not be requested over it
+                            j.stats.hit("probe.dangling_reversal_refused");
+                            // C20: that abort, too, surfaces as an error identifying its code
+                            if let EndSpec::Abort(c) = cleanup.cancel.end {
+                                if o.result.is_ok() {
+                                    j.fail("C20", "abort_as_success", name, format!("the terminal aborted the reversal of a dangling pre-authorisation with 0x{c:02x} but {name} returned Ok"));
+                                } else if let Err(e) = identifies_code(&o.result, c, false) {
+                                    j.fail("C20", "abort_code", name, format!("the terminal aborted the reversal of a dangling pre-authorisation with 0x{c:02x}: {e}"));
+                                }
+                            }
+                            if eod_seen {
+                                j.fail("C19", "eod_over_dangling", name, format!("the terminal refused the reversal of a dangling pre-authorisation ({:?}), yet {name} went on to request end-of-day over it", reported));
+                            }
+                            k = usize::MAX;
+                        } else if ok {
+                            if let Some(r2) = reported.iter().find(|r| !reversed.contains(r)) {
+                                ok = false;
+                                why = format!("the terminal reported the dangling pre-authorisation {r2}; it must be reversed (06 25, currency {cur})");
+                            } else if !eod_seen {
                                 ok = false;
                                 why = format!("end-of-day 06 50 (password {}) must follow", plan.cfg.password);
                             }
                         }
-                        if ok && rest.len() != k {
-                            ok = false;
-                            why = "frames after end-of-day".into();
-                        }
                     }
+                    let _ = k;
                     if !ok {
                         j.fail(
                             "C19",
@@ -647,62 +664,39 @@ pub fn judge_fault_free(plan: &ClientPlan, run: &ClientRun) -> Judged {
                 }
             }
             OpSpec::Configure { out } => {
-                // expected frames: 0F A1, [06 1B], 06 93, clean-up
-                let mut want: Vec<(u8, u8)> = vec![(0x0f, 0xa1)];
-                let mut fail_code: Option<u8> = None;
-                let mut reaches_eod = false;
-                let tid_differs = {
-                    // what the terminal reported at that moment is in the request's reply; approximate by the plan
-                    plan.cfg.terminal_id != plan.pt.terminal_id && i == 0 && !matches!(plan.init.set_tid, EndSpec::Completion)
-                };
-                let _ = tid_differs;
-                if let EndSpec::Abort(c) = out.sysinfo {
-                    fail_code = Some(c);
-                } else {
-                    let sent_tid = pk.iter().any(|p| p.cf == (0x06, 0x1b));
-                    if sent_tid {
-                        want.push((0x06, 0x1b));
-                        if let EndSpec::Abort(c) = out.set_tid {
-                            fail_code = Some(c);
-                        }
-                    }
-                    if fail_code.is_none() {
-                        want.push((0x06, 0x93));
-                        if let EndSpec::Abort(c) = out.init {
-                            fail_code = Some(c);
-                        } else {
-                            reaches_eod = true;
-                        }
-                    }
-                }
-                let got: Vec<(u8, u8)> = pk.iter().map(|p| p.cf).collect();
-                if got.len() < want.len() || got[..want.len()] != want[..] {
-                    j.fail("C20", "configure_sequence", "configure", format!("configure sent {:02x?}, expected it to start with {:02x?}", got, want));
-                }
-                if reaches_eod {
+                // Which exchanges configure runs, and in which order, is not pinned by any property (it may
+                // re-register, enquire the status, ...). Judged is what the terminal actually did: the first
+                // exchange of this call that it aborted - other than the pending query, which is answered
+                // with an abort packet by protocol - must surface as an error identifying its code
+                // ('receiver not ready' at end-of-day is tolerated); if it aborted nothing and end-of-day
+                // completed, configure succeeds.
+                let _ = out;
+                let is_query = |r: &ReqLog| r.pkt.as_ref().map(|p| p.cf == (0x06, 0x23) && p.get(0x87) == Some(&[0xff, 0xff][..])).unwrap_or(false);
+                if reqs.iter().any(|r| is_query(r) || (r.frame[0], r.frame[1]) == (0x06, 0x50)) {
+                    // the clean-up wipes the token map
                     open.clear();
-                    match cleanup_ok(&out.cleanup, reqs.iter().any(|r| r.dangling_reported.is_some())) {
-                        Some(true) => {
+                }
+                let first_abort = reqs.iter().find(|r| !is_query(r) && r.completed == Some(false) && r.abort_sent.is_some());
+                match first_abort {
+                    Some(r) => {
+                        let c = r.abort_sent.unwrap();
+                        let cf = (r.frame[0], r.frame[1]);
+                        j.stats.hit("probe.configure_aborted");
+                        if cf == (0x06, 0x50) && c == 0xa0 {
                             if !o.result.is_ok() {
-                                j.fail("C19", "not_ready_not_tolerated", "configure", format!("configure: everything completed (end-of-day {:?}) yet it returned {}", out.cleanup.eod.end, o.result.class()));
+                                j.fail("C19", "not_ready_not_tolerated", "configure", format!("configure: end-of-day answered 'receiver not ready' (A0), which is tolerated, yet it returned {}", o.result.class()));
                             }
+                        } else if o.result.is_ok() {
+                            j.fail("C20", "abort_as_success", "configure", format!("terminal aborted the {:02x} {:02x} exchange of configure with 0x{c:02x} but configure returned Ok", cf.0, cf.1));
+                        } else if let Err(e) = identifies_code(&o.result, c, false) {
+                            j.fail("C20", "abort_code", if cf == (0x06, 0x50) { "configure/eod" } else { "configure" }, e);
                         }
-                        Some(false) => {
-                            let EndSpec::Abort(c) = out.cleanup.eod.end else { unreachable!() };
-                            if o.result.is_ok() {
-                                j.fail("C20", "abort_as_success", "configure/eod", format!("end-of-day aborted with 0x{c:02x} but configure returned Ok"));
-                            } else if let Err(e) = identifies_code(&o.result, c, false) {
-                                j.fail("C20", "abort_code", "configure/eod", e);
-                            }
-                        }
-                        None => {}
                     }
-                } else if let Some(c) = fail_code {
-                    j.stats.hit("probe.configure_aborted");
-                    if o.result.is_ok() {
-                        j.fail("C20", "abort_as_success", "configure", format!("terminal aborted a configure step with 0x{c:02x} but configure returned Ok"));
-                    } else if let Err(e) = identifies_code(&o.result, c, false) {
-                        j.fail("C20", "abort_code", "configure", e);
+                    None => {
+                        let eod_completed = reqs.iter().any(|r| (r.frame[0], r.frame[1]) == (0x06, 0x50) && r.completed == Some(true));
+                        if eod_completed && !o.result.is_ok() {
+                            j.fail("C19", "not_ready_not_tolerated", "configure", format!("configure: the terminal completed everything including end-of-day, yet it returned {}", o.result.class()));
+                        }
                     }
                 }
             }
